@@ -238,9 +238,9 @@ func c11Eval(w *mc.W, cas c11Case) {
 }
 
 func runC11(c *mc.Ctx) {
-	c.Rule("blocks of n = 1..65 distinct transactions; all 2^n subsets for n <= 12 (16 thorough) and for larger n the structured family {empty, full, singletons, adjacent pairs, prefixes, suffixes, right edge, alternating}; each (n, subset) through NewMerkleBlockWithTxnSet (two set orderings), NewMerkleBlockWithFilter and bloom.NewMerkleBlock, compared field by field with the reference partial-merkle-tree builder and extracted again; non-trivial = proper non-empty subsets")
+	c.Rule("blocks of n = 1..65 distinct transactions; all 2^n subsets for n <= 14 (18 thorough) and for larger n the structured family {empty, full, singletons, adjacent pairs, prefixes, suffixes, right edge, alternating}; each (n, subset) through NewMerkleBlockWithTxnSet (two set orderings), NewMerkleBlockWithFilter and bloom.NewMerkleBlock, compared field by field with the reference partial-merkle-tree builder and extracted again; non-trivial = proper non-empty subsets")
 	c.Assume("SHA-256 and wire transaction hashing trusted; the 16384-byte x 10 filter has no false positives on <= 65 items (if one occurs the induced set is used and the event is counted)")
-	full := mc.Pick(c, 12, 16)
+	full := mc.Pick(c, 14, 18)
 	var cases []c11Case
 	for n := 1; n <= full; n++ {
 		for s := 0; s < 1<<uint(n); s++ {
